@@ -36,6 +36,9 @@ pub struct SymRng {
     pub words: [u64; NW],
     pub pos: usize,
     pub limit: usize,
+    /// strict: asking for more than `limit` words is an assertion failure instead of a cut (used where the
+    /// harness supplies a witness stream on which the sampler must return within `limit` words)
+    pub strict: bool,
     #[cfg(test)]
     tail: u64,
 }
@@ -50,6 +53,7 @@ impl SymRng {
             words,
             pos: 0,
             limit,
+            strict: false,
             #[cfg(test)]
             tail: std::env::var("VERIF_SEED").ok().and_then(|s| s.parse().ok()).unwrap_or(0u64) ^ 0x9e3779b97f4a7c15,
         }
@@ -58,6 +62,9 @@ impl SymRng {
     #[inline(always)]
     fn word(&mut self) -> u64 {
         let p = self.pos;
+        if self.strict {
+            vassert!(p < self.limit, "sampler asked for more random words than the witness stream allows (no acceptance)");
+        }
         kani::assume(p < self.limit);
         self.pos = p + 1;
         if p < NW { self.words[p] } else { kani::any() }
@@ -65,6 +72,9 @@ impl SymRng {
     #[cfg(test)]
     fn word(&mut self) -> u64 {
         let p = self.pos;
+        if self.strict {
+            vassert!(p < self.limit, "sampler asked for more random words than the witness stream allows (no acceptance)");
+        }
         self.pos = p + 1;
         if p < NW && p < self.limit {
             self.words[p]
@@ -516,14 +526,54 @@ pub fn pow32_ok(x: f32, y: f32, r: f32) -> bool {
     }
     if (x > 1.0) == (y > 0.0) { r >= 1.0 } else { r <= 1.0 }
 }
+// pow is made functional on its two most recent distinct argument pairs (an uninterpreted function with the
+// contract as axioms): Zeta computes 2^(s-1) in new() and again in sample()
+static mut POW64_MEMO: [(u64, u64, u64); 2] = [(0, 0, 0); 2];
+static mut POW64_VALID: [bool; 2] = [false; 2];
+static mut POW64_NEXT: usize = 0;
 pub fn c_pow64(x: f64, y: f64) -> f64 {
+    unsafe {
+        let mut i = 0;
+        while i < 2 {
+            if POW64_VALID[i] && POW64_MEMO[i].0 == x.to_bits() && POW64_MEMO[i].1 == y.to_bits() {
+                return f64::from_bits(POW64_MEMO[i].2);
+            }
+            i += 1;
+        }
+    }
     let r: f64 = kani::any();
     kani::assume(pow64_ok(x, y, r));
+    // 2^1024 and beyond overflow
+    kani::assume(!(x >= 2.0 && y >= 1024.0) || r == f64::INFINITY);
+    unsafe {
+        POW64_MEMO[POW64_NEXT] = (x.to_bits(), y.to_bits(), r.to_bits());
+        POW64_VALID[POW64_NEXT] = true;
+        POW64_NEXT = 1 - POW64_NEXT;
+    }
     r
 }
+static mut POW32_MEMO: [(u32, u32, u32); 2] = [(0, 0, 0); 2];
+static mut POW32_VALID: [bool; 2] = [false; 2];
+static mut POW32_NEXT: usize = 0;
 pub fn c_pow32(x: f32, y: f32) -> f32 {
+    unsafe {
+        let mut i = 0;
+        while i < 2 {
+            if POW32_VALID[i] && POW32_MEMO[i].0 == x.to_bits() && POW32_MEMO[i].1 == y.to_bits() {
+                return f32::from_bits(POW32_MEMO[i].2);
+            }
+            i += 1;
+        }
+    }
     let r: f32 = kani::any();
     kani::assume(pow32_ok(x, y, r));
+    // 2^128 and beyond overflow f32
+    kani::assume(!(x >= 2.0 && y >= 128.0) || r == f32::INFINITY);
+    unsafe {
+        POW32_MEMO[POW32_NEXT] = (x.to_bits(), y.to_bits(), r.to_bits());
+        POW32_VALID[POW32_NEXT] = true;
+        POW32_NEXT = 1 - POW32_NEXT;
+    }
     r
 }
 
